@@ -225,6 +225,61 @@ def wire_probe(ctx):
             ctx.violations.append({"key": "task died in the wire probe", "what": str(d.task_errors[:1]), "replay": {"kind": "wire_probe"}})
     finally:
         S.close()
+    # ---- two connections, messages of exactly one read buffer (ProtocolConfig.BUFFER_SIZE bytes): a legal action padded with blanks
+    # to that length is played, text of that length that is not JSON is refused - and nothing of either reaches the NEXT message,
+    # whichever connection it comes from
+    cfg["env"]["required_players"] = 2
+    S = CR.Session(cfg)
+    S.d.on_segment = None
+    d = S.d
+    a, b = ("10.3.14.2", 1402), ("10.3.14.3", 1403)
+    size = gc.ProtocolConfig.BUFFER_SIZE
+    try:
+        d.connect(a); d.connect(b); d.settle()
+        d.send(a, nsgenv.join("w1", "Attacker")); d.send(b, nsgenv.join("w2", "Attacker")); d.settle()
+        d.new_output(a); d.new_output(b)
+        src = gc.IP("192.168.2.2")
+        plain = lambda i: gc.Action(gc.ActionType.FindServices, {"source_host": src, "target_host": gc.IP("192.168.1.%d" % (i + 2))})
+        sent = {a: [], b: []}
+
+        def play(who, act, pad, what):
+            text = act.to_json()
+            if pad:
+                text = text + " " * (size - len(text.encode()))
+            d.send(who, text); d.settle()
+            out = d.new_output(who)
+            stats["actions_sent"] += 1
+            st = json.loads(out[0][:-3].decode()).get("status") if len(out) == 1 else None
+            if st != "GameStatus.OK":
+                ctx.violations.append({"key": "legal action refused on the wire (buffer-sized messages)", "what": f"{what}: a well-formed action was answered with {st} ({len(out)} answers) instead of being played",
+                                       "replay": {"kind": "wire_probe", "text": what}})
+            else:
+                sent[who].append(act)
+        for i in range(3):
+            play(b, plain(i), True, f"round {i}: an action padded with blanks to exactly {size} bytes")
+            play(a, plain(i + 3), False, f"round {i}: the next (ordinary) action of the OTHER connection")
+            d.send(b, "x" * size); d.settle()
+            out = d.new_output(b)
+            st = json.loads(out[0][:-3].decode()).get("status") if len(out) == 1 else None
+            if st != "GameStatus.BAD_REQUEST":
+                ctx.violations.append({"key": "buffer-sized text that is not JSON is not refused", "what": f"round {i}: {size} bytes that are not JSON were answered with {st} ({len(out)} answers)", "replay": {"kind": "wire_probe", "text": "x*size"}})
+            play(a, plain(i + 6), False, f"round {i}: the next action of the other connection after {size} bytes of text that is not JSON")
+            play(b, plain(i + 9), False, f"round {i}: the next action of the same connection")
+        for who in (a, b):
+            d.send(who, nsgenv.msg("ResetGame", request_trajectory="True")); d.settle()
+        for who in (a, b):
+            out = d.new_output(who)
+            doc = json.loads(out[0][:-3].decode()) if len(out) == 1 else {}
+            rec = ((doc.get("message") or {}).get("last_trajectory") or {}).get("trajectory", {}).get("actions")
+            if rec is None:
+                ctx.violations.append({"key": "no trajectory after buffer-sized messages", "what": f"the reset after the buffer-sized messages was answered {str(doc.get('status'))} without the requested trajectory; {d.task_errors[:1]}", "replay": {"kind": "wire_probe"}})
+            elif [gc.Action.from_dict(x) for x in rec] != sent[who]:
+                ctx.violations.append({"key": "actions lost, duplicated or changed on the wire (buffer-sized messages)", "what": f"{len(sent[who])} actions were played on a connection, its trajectory records {len(rec)} (or other ones)", "replay": {"kind": "wire_probe"}})
+    except Exception as e:
+        import traceback
+        ctx.stage_errors.append(("wire probe (buffer-sized messages)", f"{type(e).__name__}: {e}\n{traceback.format_exc()[-500:]}"))
+    finally:
+        S.close()
     ctx.coverage["wire_probe"] = stats
 
 
